@@ -6,14 +6,17 @@ from ..core import Run, ToolError
 BOUNDS = {"quick": (3, 2), "thorough": (5, 3)}
 
 
-def gen_cfg(run, maxroot, maxext, emit=True):
-    cfg = run.path("MC_C14.cfg")
+SPARSE = {"quick": (2, 3), "thorough": (2, 4)}
+
+
+def gen_cfg(run, maxroot, maxext, emit=True, nums="MCNums"):
+    cfg = run.path(f"MC_C14_{nums}.cfg")
     with open(cfg, "w") as f:
         f.write(f"""SPECIFICATION Spec
 CONSTANTS
   MaxRoot = {maxroot}
   MaxExt = {maxext}
-  Nums <- MCNums
+  Nums <- {nums}
 INVARIANTS TypeOK ExplicitKept Distinct RootSuccessive AdditionsFresh AdditionsIncreasing {'Emit' if emit else ''}
 CHECK_DEADLOCK FALSE
 """)
@@ -43,6 +46,13 @@ def check(tier):
     cases = res.printed("CASE")
     if not cases:
         raise ToolError("model produced no cases")
+    # the sparse slice: few items, numbers from {3, 4, 9}, more additions
+    sr, se = SPARSE[tier]
+    res2 = core.tlc("mc/MC_C14.tla", gen_cfg(run, sr, se, nums="MCNumsSparse"), workers=8, coverage=True, timeout=3000, xmx="12g")
+    core.check_coverage(res2)
+    run.add_tlc(res2, f"EnumNum exhaustive, sparse numbers {{3, 4, 9}}, MaxRoot={sr} MaxExt={se}")
+    seen = {json.dumps(c, sort_keys=True) for c in cases}
+    cases += [c for c in res2.printed("CASE") if json.dumps(c, sort_keys=True) not in seen]
     # non-vacuity of the oracle: the positional numbering (the defect that was repaired) must be
     # refuted by the same invariants
     neg = core.tlc("mc/MC_C14_positional.tla", "mc/MC_C14_positional.cfg", workers=4, expect_violation=True, timeout=300)
@@ -54,7 +64,7 @@ def check(tier):
                                          if e["status"] == "ok" and len(e["root"]) + len(e["ext"]) >= 2})
     run.cov["exhaustive"] = True
     run.cov["rule"] = (f"TLC enumerates every legal ENUMERATED with <= {mr} root items and <= {me} additions, each item "
-                       "identifier-only or numbered from {-1,0,1,2,5}; one case per completed behaviour; non-trivial = "
+                       "identifier-only or numbered from {-1,0,1,2,5}, and a sparse slice (<= 2 root items, <= 3 / 4 additions, numbers from {3,4,9}); one case per completed behaviour; non-trivial = "
                        "compiled Ok with at least two enumerals; distinct by rendered ASN.1 text")
     run.cov["samples"] = [{"asn": e["asn"], "observed_discriminants": e["discs"], "model_numbers": c["out"]}
                           for e, c in list(zip(events, cases))[:: max(1, len(events) // 5)][:6]]
